@@ -135,7 +135,7 @@ structure FwdCall where
   useVk : Bool
   hideA : Bool       -- passes *something* as *args that is not (or no longer) the pristine one
   hideK : Bool
-  deriving Repr
+
 
 /-- does the statement (possibly) taint star `s`?  `args` is a tuple: handing it over cannot
     change it, so only `**kwargs` is tainted by being handed to other code. -/
